@@ -60,7 +60,7 @@ theorem scandat_now {r : Repo} {H : List (Nat × Bytes)} {now : Nat} (hi : Inv r
 
 theorem doBackup_cases {r : Repo} {H : List (Nat × Bytes)} {src : Src} {o : BOpts} {now : Nat}
     (hi : Inv r H) (hle : ∀ f ∈ r.files, f.name.date ≤ now)
-    (hq : o.quick = true → QuickDetectable r src now) :
+    (hq : o.quick = true → o.full = false → QuickDetectable r src now) :
     doBackup r src o now = doFullBackup r src o now ∨
     (doBackup r src o now = (r, .noop) ∧ r.files ≠ [] ∧ src.raw = chainBytes r.files) ∨
     (∃ reposz f0 rest D, doBackup r src o now = doIncrementalBackup r src o now reposz (f0 :: rest) ∧
@@ -81,7 +81,7 @@ theorem doBackup_cases {r : Repo} {H : List (Nat × Bytes)} {src : Src} {o : BOp
   · simp only [hquick, if_true]
     rw [← hff, hsc]
     simp only
-    have hqd := hq hquick
+    have hqd := hq hquick hfull'
     unfold QuickDetectable at hqd
     rw [hsc] at hqd
     simp only at hqd
@@ -136,7 +136,7 @@ theorem filter_holds_cons_self {H : List (Nat × Bytes)} {g : DFile} {l : List D
 
 theorem doBackup_spec {r : Repo} {H : List (Nat × Bytes)} {src : Src} {o : BOpts} {now : Nat}
     (hi : Inv r H) (hlt : ∀ f ∈ r.files, f.name.date < now)
-    (hq : o.quick = true → QuickDetectable r src now) :
+    (hq : o.quick = true → o.full = false → QuickDetectable r src now) :
     ∃ r' out, doBackup r src o now = (r', out) ∧
       Inv r' (histAfter r' out H now src.committed) ∧
       (∀ f ∈ r'.files, f ∈ r.files ∨ f.name.date = now) ∧
@@ -231,7 +231,7 @@ theorem sinv_evolve {s : St} (h : SInv s) (src' : Src) : SInv { s with src := sr
   ⟨h.inv, h.histLe, h.filesLe⟩
 
 theorem sinv_backup {s : St} {o : BOpts} {now : Nat} (h : SInv s) (hnow : s.last < now)
-    (hq : o.quick = true → QuickDetectable s.repo s.src now) : SInv (backupStep s o now) := by
+    (hq : o.quick = true → o.full = false → QuickDetectable s.repo s.src now) : SInv (backupStep s o now) := by
   have hlt : ∀ f ∈ s.repo.files, f.name.date < now := fun f hf => by
     have := h.filesLe f hf; omega
   obtain ⟨r', out, heq, hinv, hfiles, hnew, _, hsame⟩ := doBackup_spec h.inv hlt hq
